@@ -38,9 +38,10 @@ def main():
         return 2
     try:
         res["demo_patched"] = demo(demo_path)
-        b = sh([os.path.join(VERIF, "harness", "baseline.sh")])
-        res["baseline"] = b.stdout.decode().strip().splitlines()[0] if b.stdout else "?"
-        res["baseline_rc"] = b.returncode
+        if not os.environ.get("VERIF_SKIP_BASELINE"):      # (developer shortcut for re-runs of already confirmed changes)
+            b = sh([os.path.join(VERIF, "harness", "baseline.sh")])
+            res["baseline"] = b.stdout.decode().strip().splitlines()[0] if b.stdout else "?"
+            res["baseline_rc"] = b.returncode
         for p in props:
             env = dict(os.environ, VERIF_EVIDENCE_DIR="/tmp/seedtest_evidence")
             extra = ["--no-build"] if os.environ.get("VERIF_NO_BUILD") else []      # (developer shortcut while proofs are being reworked)
